@@ -545,6 +545,43 @@ var scenarios = []scenario{
 		s.DropCollection(cB)
 		s.Audit("DropIndex / DropCollection on long names")
 	}},
+	{"huge-collection-drop-and-delete", "C13 C06 C03", func(s *S) {
+		// more documents than 2^15 (and, on bbolt, than 2^16): DropCollection and Delete remove every one of them, a
+		// collection created afterwards under the same name starts empty. (badger: 40000 documents without an index,
+		// written in two batches, so that every transaction stays below badger's own size limit.)
+		n, indexed := 70000, true
+		if s.h.Backend != BBolt {
+			n, indexed = 40000, false
+		}
+		docs := make([]map[string]any, n)
+		for i := range docs {
+			docs[i] = map[string]any{"_id": fixedID(i + 1), "g": int64(i % 7), "x": int64(i)}
+		}
+		all := &model.Query{Coll: "huge"}
+		s.CreateCollection("huge", nil)
+		if indexed {
+			s.CreateIndex("huge", "g")
+		}
+		s.Insert("huge", docs[:n/2], false)
+		s.Insert("huge", docs[n/2:], false)
+		s.Count(all)
+		s.Count(&model.Query{Coll: "huge", Crit: cmpc(model.OpEq, "g", int64(3))})
+		s.DropCollection("huge")
+		s.HasCollection("huge")
+		s.CreateCollection("huge", nil)
+		s.Count(all)
+		s.FindAll(all)
+		s.Insert("huge", docs[n-20:], false) // the ids the paging would have skipped are free again
+		s.Insert("huge", docs[:n-20], false)
+		s.AuditPhysical("DropCollection of a huge collection, re-creation under the same name")
+		if s.failed {
+			return
+		}
+		s.Bulk(BulkDelete, &model.Query{Coll: "huge", Crit: cmpc(model.OpGtEq, "x", int64(5))}, nil)
+		s.Count(all)
+		s.FindAll(all)
+		s.AuditPhysical("Delete of all but five documents of a huge collection")
+	}},
 	{"isolation-prefix-names-shared-ids", "C13 C06", func(s *S) {
 		names := []string{"c", "cc", "c:", "coll:", "", "cx"}
 		docs := numDocs(4)
